@@ -72,7 +72,7 @@ def generate(prop, rng):
         "jobs": rng.choice([1, 2, None]),
         "tick_ns": rng.choice([1000, 1_000_000]),
         "warm_state": rng.random() < 0.3,
-        "hardlink": rng.random() < 0.1,
+        "hardlink": rng.random() < 0.25,
         "big_threshold": rng.choice([None, None, 0]),
     }
     return {
@@ -351,6 +351,15 @@ def execute(sc, ctx):
             ctx.violate("object-wrong-bytes", variant, f"{model.short(oid)} len={len(objs[oid])} want={len(data)}")
     for oid in sorted(set(objs) - set(expected)):
         ctx.violate("unexpected-object", variant, model.short(oid))
+    # Observation only (NOT part of C16's statement, so not a violation): with
+    # hardlink=True on a store without working reflinks, a late writer's reflink
+    # attempt opens the final object path with O_TRUNC; that path is a hard link
+    # to ANOTHER writer's workspace file, which is thereby emptied.
+    for i, t in enumerate(sc["trees"]):
+        snap = model.files_of(model.snapshot(w.p(f"ws{i}")))
+        want = {rel: contents[ci] for rel, ci in t.items()}
+        if snap != want:
+            ctx.probe("observed_workspace_file_truncated_by_other_writer")
     _audit_state(ctx, w)
     # ---- measures ---------------------------------------------------------
     per_path = {}
